@@ -424,6 +424,10 @@ func reifyValue(
 			ctx := val.Context()
 			return reflect.Value{}, raisePathErr(err, val.meta(), "", ctx.path("."))
 		}
+		// the validate tags of an interface{} field apply to what it is given
+		if err := runValidators(reified, opts.validators); err != nil {
+			return reflect.Value{}, raiseValidation(val.Context(), val.meta(), "", err)
+		}
 		return reflect.ValueOf(reified), nil
 	}
 
